@@ -47,8 +47,11 @@ Definition to_int (s : nkind) (x : Z) : res Z :=
   | NI KInt | NI KUInt => if is_int64 x then Ok (big_int64 x) else Err Overflow
   | NFix64 => Ok (Z.quot x e8)                                (* int(v / sema.Fix64Factor), Go / truncates *)
   | NUFix64 => Ok (x / e8)                                    (* uint64 division *)
-  | NFix128 | NUFix128 =>
-      let integerPart := x / e24 in                           (* big.Int.Div: Euclidean (floor for positive divisor) *)
+  | NFix128 =>
+      let integerPart := Z.quot x e24 in                      (* big.Int.Quo: truncation toward zero *)
+      if is_int64 integerPart then Ok (big_int64 integerPart) else Err Overflow
+  | NUFix128 =>
+      let integerPart := x / e24 in                           (* big.Int.Div: Euclidean; the value is non-negative *)
       if is_int64 integerPart then Ok (big_int64 integerPart) else Err Overflow
   end.
 
@@ -140,11 +143,13 @@ Definition new_ufix64_with_integer (i : Z) : res Z :=
   if i >? ufix64_type_max_int then Err Overflow
   else Ok (wrap_u 64 (i * e8)).
 
-(* fix128BigIntToFix64: bounds are Fix64 min/max scaled by 10^16; big.Int.Div *)
+(* fix128BigIntToFix64: bounds are Fix64 min/max scaled by 10^16, checked first; then big.Int.Quo *)
 Definition fix128_bigint_to_fix64 (b : Z) : res Z :=
   if b >? max_int64 * e16 then Err Overflow
   else if b <? min_int64 * e16 then Err Underflow
-  else Ok (big_int64 (b / e16)).
+  else Ok (big_int64 (Z.quot b e16)).
+
+(* fix128BigIntToUFix64: bounds checked first; big.Int.Div on a value that is non-negative by then *)
 
 Definition fix128_bigint_to_ufix64 (b : Z) : res Z :=
   if b >? max_uint64 * e16 then Err Overflow
